@@ -300,6 +300,11 @@ fn eol(ch: &mut Choices, out: &mut Out, fancy: bool) {
 }
 
 fn comment_text(ch: &mut Choices) -> Vec<u8> {
+    // rarely: one very long comment line (several 16 KiB buffers of look-ahead)
+    if ch.next() == 0xA7 && ch.next() % 8 == 3 {
+        let n = 40_000 + (ch.next() as usize) * 100;
+        return (0..n).map(|k| b" long comment 1 2 0 c p"[k % 23]).collect();
+    }
     const TEXTS: [&[u8]; 8] = [
         b"",
         b" a comment",
@@ -324,6 +329,9 @@ fn filler_lines(ch: &mut Choices, out: &mut Out, fancy: bool, inside_clause: boo
         if ch.chance(8) {
             let mut c = vec![b'c'];
             c.extend(comment_text(ch));
+            if c.len() > 30_000 {
+                out.feature("very-long-comment");
+            }
             out.tok(&c, Role::Comment, usize::MAX);
             eol(ch, out, fancy);
             out.feature(if inside_clause { "comment-inside-clause" } else { "comment-line" });
